@@ -166,3 +166,30 @@ func vH_C19_quota_refusal() {
 		vAssert(rerr == nil && n == 2 && buf[0] == pl[0] && buf[1] == pl[1], "and its early payload is delivered")
 	}
 }
+
+// ---- H7.4: every session of an authenticated TCP connection is the user's ----
+//
+// User discovery runs once per TCP connection, on its first segment; the
+// underlay remembers the authenticated user's policy (commitServerUser-
+// Authentication).  A LATER open-session request on the same connection carries
+// no pending authentication - the session it creates must still be attributed
+// to that user: same policy snapshot, so its quota binds.
+func vH_C07_later_session_keeps_policy() {
+	u := &StreamUnderlay{baseUnderlay: *newBaseUnderlay(false, 1400, nil), conn: &vFakeConn{}}
+	var days, mbs [2]int32
+	days[0], mbs[0] = 1, vNondetI32("megabytes")
+	vAssume(mbs[0] >= 0)
+	u.serverUserPolicy = vQuotaPolicy(1, &days, &mbs) // committed when the first segment authenticated
+	sid := vNondetU32("sid")
+	vAssume(sid != 0)
+	var bc cipher.BlockCipher = &vFakeBlock{user: "u"}
+	seg := &segment{metadata: &sessionStruct{baseStruct: baseStruct{protocol: uint8(openSessionRequest)}, sessionID: sid, seq: 0}, transport: common.StreamTransport, block: bc}
+	err := u.onOpenSessionRequest(seg)
+	vAssert(err == nil, "the later session is opened")
+	v, ok := u.sessionMap.Load(sid)
+	vAssert(ok, "it is registered")
+	s := v.(*Session)
+	p := s.userPolicy.Load()
+	vAssert(p != nil && p.Name() == "u", "a later session of the connection carries the authenticated user's policy")
+	vAssert(p != nil && len(p.Quotas()) == 1 && p.Quotas()[0].Megabytes() == mbs[0], "with the user's own quotas (so the quota binds on every session of the connection)")
+}
